@@ -42,6 +42,7 @@ let build_s (enc : string) : jv option =
       | 'u' -> JUInt (n_of_string r) | 'U' -> JUInt64 (n_of_string r)
       | 'i' -> JInt (z_of_string r) | 'I' -> JInt64 (z_of_string r)
       | 't' -> JBool true | 'f' -> JBool false | 'n' -> JNull
+      | 'D' -> (match parse_text (s_of_hex r) with POk (v, _) -> v | _ -> JNull)
       | 'a' -> let n = ios r in
                let l = ref [] in
                for _ = 1 to n do l := build () :: !l done; JArr (List.rev !l)
@@ -152,6 +153,23 @@ let handle (p : string) : string =
             if close then for i = n downto 1 do Buffer.add_string b (if (i - 1) land 1 = 1 then "}" else "]") done);
     let r = parse_result (bytes_of_string (Buffer.contents b)) false in
     r ^ "-deep" ^ (if n > int_of_n mAX_DEPTH then "-over" else if n = int_of_n mAX_DEPTH then "-at" else "-under")
+  | ["cmp"; x; y] ->
+    let x = getv (build_s x) and y = getv (build_s y) in
+    let is_int v = match v with JUInt _ | JInt _ | JUInt64 _ | JInt64 _ -> true | _ -> false in
+    let kind v = match v with JUInt _ -> "u" | JInt _ -> "i" | JUInt64 _ -> "U" | JInt64 _ -> "I" | JDbl _ -> "D"
+                            | JArr _ -> "a" | JObj _ -> "o" | _ -> "x" in
+    if is_int x && is_int y then begin
+      (* the branch-for-branch CompareNumbers model; must agree with the value-based jv_eqb *)
+      let eq = num_eq_cpp x y and qe = num_eq_cpp y x and lt = num_lt_cpp x y in
+      let chk = if eq <> jv_eqb x y || qe <> jv_eqb y x then ";chk=EQ-MISMATCH" else "" in
+      Printf.sprintf "eq=%s;qe=%s;ne=%s;lt=%s;le=%s;gt=%s;ge=%s%s;class=cmp:%s%s-%s" (bool01 eq) (bool01 qe)
+        (bool01 (not eq)) (bool01 lt) (bool01 (eq || lt)) (bool01 (not (eq || lt))) (bool01 (not lt)) chk
+        (kind x) (kind y) (if eq then "eq" else if lt then "lt" else "gt")
+    end else begin
+      let eq = jv_eqb x y and qe = jv_eqb y x in
+      Printf.sprintf "eq=%s;qe=%s;ne=%s;class=cmp:%s%s-%s" (bool01 eq) (bool01 qe) (bool01 (not eq))
+        (kind x) (kind y) (if eq then "eq" else "ne")
+    end
   | ["len"; kind; n] ->
     let n = ios n in
     let r = parse_result (bytes_of_string (sized_doc kind n)) false in
